@@ -297,6 +297,45 @@ pub fn seed_inputs() -> Vec<(String, Vec<u8>)> {
         let mut t = wire::Tape::new(&tape);
         v.push(("report".into(), wire::report(&mut t).encode()));
     }
+    // length-prefixed text fields at (and just below) their maximum length: a decoder that accepts something slightly
+    // different from what the encoder can write (e.g. a name that grows when it is normalised) shows up here
+    for (a, b) in [(255usize, 3usize), (254, 255), (3, 255), (200, 254)] {
+        let name = |n: usize, c: char| -> camino::Utf8PathBuf { std::iter::repeat(c).take(n).collect::<String>().into() };
+        let m = MetadataPDU {
+            closure_requested: a % 2 == 1,
+            checksum_type: cfdp_core::filestore::ChecksumType::Modular,
+            file_size: 77,
+            source_filename: name(a, 's'),
+            destination_filename: name(b, 'd'),
+            options: vec![
+                MetadataTLV::FileStoreRequest(FileStoreRequest {
+                    action_code: FileStoreAction::RenameFile,
+                    first_filename: name(b, 'f'),
+                    second_filename: name(a, 'g'),
+                }),
+                MetadataTLV::MessageToUser(MessageToUser { message_text: vec![b'm'; a.min(250)] }),
+            ],
+        };
+        for f in [FileSizeFlag::Small, FileSizeFlag::Large] {
+            v.push((if f == FileSizeFlag::Large { "ops-l" } else { "ops-s" }.into(), Operations::Metadata(m.clone()).encode(f)));
+        }
+        for o in &m.options {
+            v.push(("tlv".into(), o.clone().encode()));
+            if let MetadataTLV::FileStoreRequest(r) = o {
+                v.push(("fs_request".into(), r.clone().encode()));
+                v.push((
+                    "fs_response".into(),
+                    FileStoreResponse {
+                        action_and_status: FileStoreStatus::RenameFile(RenameStatus::Successful),
+                        first_filename: r.first_filename.clone(),
+                        second_filename: r.second_filename.clone(),
+                        filestore_message: vec![b'x'; 255],
+                    }
+                    .encode(),
+                ));
+            }
+        }
+    }
     v.sort();
     v.dedup();
     v
